@@ -38,6 +38,11 @@ def make_reader(kind):
     """-> (base file object, {handle name: factory})"""
     tl.install()
     fx = fixture(kind)
+    with tl.patched_threading():
+        return _make_reader(kind, fx)
+
+
+def _make_reader(kind, fx):
     from pyctr.fileio import SubsectionIO
     if kind == 'windows':
         base = tl.LogBytesIO(fx)
@@ -118,6 +123,11 @@ def open_handles(fac, names, pre):
     handles come and go while others stay in use, and the sharing discipline has to survive that"""
     import gc
     hs = []
+    with tl.patched_threading():
+        return _open_handles(fac, names, pre, hs, gc)
+
+
+def _open_handles(fac, names, pre, hs, gc):
     for i, n in enumerate(names):
         p = pre[i - 1] if (pre and 0 < i <= len(pre)) else None
         if p:
